@@ -188,6 +188,7 @@ typedef struct {
 	atomic_int  rem; // pipes removed on the control socket
 	atomic_int  add;
 	uint32_t    seen_seq; // highest control sequence number received
+	int         rem_base; // removals seen while the connection was being established
 } ctlsock;
 
 typedef struct {
@@ -427,7 +428,7 @@ oracle_rx(victim *v, nng_msg *m)
 				}
 			}
 			f->delivered = true;
-			se->cursor   = i + 1;
+			if (blen >= 4) se->cursor = i + 1; // tiny bodies are not unique: no ordering claim
 			se->ndelivered++;
 			vf_stat("delivered_matched", 1);
 			if (vp->id_once && se->ndelivered > 1) {
@@ -449,6 +450,13 @@ oracle_rx(victim *v, nng_msg *m)
 	const frame_exp *f  = find_any(v, body, blen, &se);
 	const char      *why = "unknown";
 	if (f != NULL) {
+		if (f->status == FR_DELIVER && blen < 4) {
+			// bodies of 0..3 bytes are not unique across frames and sessions:
+			// being deliverable at all is what can be claimed
+			vf_stat("tiny_bodies_unordered", 1);
+			nng_msg_free(m);
+			return;
+		}
 		if (f->status == FR_DELIVER) why = f->delivered ? "duplicate" : "reordered";
 		else why = fr_reason[f->status];
 	}
@@ -724,8 +732,20 @@ v_send(victim *v, nng_msg *m)
 // One application level exchange that involves control client k and the
 // victim.  Retries (lossy protocols, load balancing over two controls) for
 // up to 6 s.
+static bool exchange_(victim *v, int k, int *triesp);
 static bool
 exchange(victim *v, int k)
+{
+	uint64_t t0 = vf_now_ns();
+	int      tries = 0;
+	bool     ok = exchange_(v, k, &tries);
+	vf_stat("exchange_tries", tries);
+	vf_stat("exchanges", 1);
+	if (vf_verbose > 1) fprintf(stderr, "  exchange k=%d ok=%d tries=%d %.1f ms\n", k, ok, tries, (double) (vf_now_ns() - t0) / 1e6);
+	return ok;
+}
+static bool
+exchange_(victim *v, int k, int *triesp)
 {
 	ctlsock *c   = &v->ctl[k];
 	uint64_t end = vf_now_ns() + 6000ULL * 1000000ULL;
@@ -741,11 +761,16 @@ exchange(victim *v, int k)
 		uint32_t lo  = udp ? seq0 : seq;
 		nng_msg *m;
 		tries++;
+		*triesp = tries;
 		switch (v->vp->ck) {
 		case CK_C2V_1W:
 			m = ctl_msg(v, seq);
 			if (nng_sendmsg(c->s, m, NNG_FLAG_NONBLOCK) != 0) nng_msg_free(m);
-			if ((m = v_wait_ctl2(v, lo, seq, 60 + 20 * tries)) != NULL) {
+			if (udp) { // a second datagram flushes one that got parked in the transport
+				m = ctl_msg(v, seq = ++v->ctl_seq);
+				if (nng_sendmsg(c->s, m, NNG_FLAG_NONBLOCK) != 0) nng_msg_free(m);
+			}
+			if ((m = v_wait_ctl2(v, lo, seq, 15 + 15 * tries)) != NULL) {
 				nng_msg_free(m);
 				return true;
 			}
@@ -753,7 +778,11 @@ exchange(victim *v, int k)
 		case CK_C2V_RR:
 			m = ctl_msg(v, seq);
 			if (nng_sendmsg(c->s, m, NNG_FLAG_NONBLOCK) != 0) nng_msg_free(m);
-			if ((m = v_wait_ctl2(v, lo, seq, 60 + 20 * tries)) != NULL) {
+			if (udp) {
+				m = ctl_msg(v, seq = ++v->ctl_seq);
+				if (nng_sendmsg(c->s, m, NNG_FLAG_NONBLOCK) != 0) nng_msg_free(m);
+			}
+			if ((m = v_wait_ctl2(v, lo, seq, 15 + 15 * tries)) != NULL) {
 				if (udp) {
 					nng_msg_free(m);
 					return true;
@@ -779,7 +808,8 @@ exchange(victim *v, int k)
 			break;
 		case CK_V2C_1W: {
 			(void) v_send(v, ctl_msg(v, seq));
-			uint64_t e2 = vf_now_ns() + (uint64_t) (60 + 20 * tries) * 1000000ULL;
+			if (udp) (void) v_send(v, ctl_msg(v, seq = ++v->ctl_seq));
+			uint64_t e2 = vf_now_ns() + (uint64_t) (15 + 15 * tries) * 1000000ULL;
 			while (vf_now_ns() < e2) {
 				ctl_service(v, 0);
 				ctl_service(v, 1);
@@ -790,11 +820,13 @@ exchange(victim *v, int k)
 		}
 		case CK_V2C_RR: {
 			(void) v_send(v, ctl_msg(v, seq));
-			uint64_t e2 = vf_now_ns() + (uint64_t) (60 + 20 * tries) * 1000000ULL;
+			if (udp) (void) v_send(v, ctl_msg(v, seq = ++v->ctl_seq));
+			uint64_t e2 = vf_now_ns() + (uint64_t) (15 + 15 * tries) * 1000000ULL;
 			bool     replied = false;
 			while (vf_now_ns() < e2) {
 				ctl_service(v, 0);
 				ctl_service(v, 1);
+				if (udp && c->seen_seq >= lo) return true;
 				if ((m = v_wait_ctl(v, seq, 3)) != NULL) {
 					nng_msg_free(m);
 					replied = true;
@@ -926,9 +958,11 @@ spin_window(victim *v, const char *when)
 		if (cb != 0 && dladdr((void *) cb, &di) != 0) {
 			snprintf(who, sizeof(who), "%s+0x%lx", di.dli_sname ? di.dli_sname : "exe", (unsigned long) (cb - (uintptr_t) (di.dli_sname ? di.dli_saddr : di.dli_fbase)));
 		}
-		snprintf(key, sizeof(key), "C11/spin/%s/%s/%s", tnames[v->tran], v->vp->name, when);
-		vf_violation(key, "process used %.0f ms of CPU in a %.0f ms idle window %s (mutation %s); meanwhile %ld timers expired (last callback %s), %ld tasks were dispatched, the pollers woke %ld times",
-		    (c1 - c0) * 1e3, wall * 1e3, when, v->cur_mut, vf_ev_count(NNI_VE_AIO_EXPIRE) - e0, who, vf_ev_count(NNI_VE_TASK_ENQ) - t0e, vf_ev_count(NNI_VE_POLL_BEGIN) - p0);
+		long nexp = vf_ev_count(NNI_VE_AIO_EXPIRE) - e0, npoll = vf_ev_count(NNI_VE_POLL_BEGIN) - p0;
+		snprintf(key, sizeof(key), "C11/spin/%s/%s", tnames[v->tran], nexp > 500 ? "timer-storm" : npoll > 500 ? "poller-storm" : "other");
+		vf_class("spin/%s/%s/%s/%s", tnames[v->tran], v->vp->name, when, v->cur_mut);
+		vf_violation(key, "%s: process used %.0f ms of CPU in a %.0f ms idle window %s (mutation %s); meanwhile %ld timers expired (last callback %s), %ld tasks were dispatched, the pollers woke %ld times",
+		    v->vp->name, (c1 - c0) * 1e3, wall * 1e3, when, v->cur_mut, vf_ev_count(NNI_VE_AIO_EXPIRE) - e0, who, vf_ev_count(NNI_VE_TASK_ENQ) - t0e, vf_ev_count(NNI_VE_POLL_BEGIN) - p0);
 	}
 	pump(v);
 }
@@ -943,7 +977,7 @@ check_bystanders(victim *v, bool do_new, bool attacker_present)
 	const vproto *vp = v->vp;
 	int           o  = v->oldk;
 	if (v->ctl[o].open) {
-		if (atomic_load(&v->ctl[o].rem) != 0) {
+		if (atomic_load(&v->ctl[o].rem) != v->ctl[o].rem_base) {
 			snprintf(key, sizeof(key), "C11/bystander-dropped/%s/%s", tnames[v->tran], vp->name);
 			vf_violation(key, "the well-behaved control connection was disconnected (mutation %s)", v->cur_mut);
 			ctl_close(v, o);
@@ -963,21 +997,28 @@ check_bystanders(victim *v, bool do_new, bool attacker_present)
 		settle(v, 5000);
 	}
 	int k = 1 - o;
-	if (!ctl_connect(v, k)) {
+	uint64_t tc0 = vf_now_ns();
+	bool     cok = ctl_connect(v, k);
+	vf_stat("us_ctl_connect", (long) ((vf_now_ns() - tc0) / 1000));
+	if (!cok) {
 		snprintf(key, sizeof(key), "C11/control-new/connect/%s/%s", tnames[v->tran], vp->name);
 		vf_violation(key, "a new well-behaved client cannot connect within 8 s after mutation %s (pipes started %d, removed %d, own clients %d)", v->cur_mut, atomic_load(&v->pre), atomic_load(&v->rem), live_ctl(v) - 1);
 		ctl_close(v, k);
 		v->wedged = true;
 		return;
 	}
-	if (!exchange(v, k)) {
+	tc0 = vf_now_ns();
+	bool xok = exchange(v, k);
+	vf_stat("us_ctl_new_exchange", (long) ((vf_now_ns() - tc0) / 1000));
+	if (!xok) {
 		snprintf(key, sizeof(key), "C11/control-new/exchange/%s/%s", tnames[v->tran], vp->name);
 		vf_violation(key, "a new well-behaved client connected but cannot complete an exchange within 6 s after mutation %s", v->cur_mut);
 		ctl_close(v, k);
 		return;
 	}
 	vf_stat("control_new_ok", 1);
-	// the new client replaces the old one
+	// the new client replaces the old one; from now on it must stay connected
+	v->ctl[k].rem_base = atomic_load(&v->ctl[k].rem);
 	ctl_close(v, o);
 	v->oldk = k;
 }
@@ -1097,7 +1138,17 @@ render_payload(const victim *v, const fspec *f, uint32_t serial, int j, uint32_t
 		tag[10] = (uint8_t) ((f->blen >> 8) & 0x7f);
 		tag[11] = (uint8_t) (f->blen & 0x7f);
 		vf_fill(tmp, f->blen, ((uint64_t) v->inst << 40) ^ ((uint64_t) serial << 12) ^ (uint64_t) j);
-		memcpy(tmp, tag, f->blen < TAGLEN ? f->blen : TAGLEN);
+		if (f->blen >= TAGLEN) {
+			memcpy(tmp, tag, TAGLEN);
+		} else if (f->blen >= 4) {
+			// short tag: still unique per (session, frame)
+			tmp[0] = 'C';
+			tmp[1] = (uint8_t) ((serial >> 7) & 0x7f);
+			tmp[2] = (uint8_t) (serial & 0x7f);
+			tmp[3] = (uint8_t) (j & 0x7f);
+		} else {
+			memcpy(tmp, tag, f->blen); // 0..3 bytes: ambiguous, matched without ordering
+		}
 		if (f->body7) {
 			for (size_t i = 0; i < f->blen; i++) tmp[i] &= 0x7f;
 		}
@@ -1287,8 +1338,18 @@ plan_mutate(const victim *v, plan *pl, vf_rng *r, int m)
 	case M_LEN_LESS: f->lk = L_MINUS; f->lv = 1 + vf_below(r, 12); break;
 	case M_HDR_MISSING: f->hk = H_NONE; break;
 	case M_HDR_TRUNC: f->hk = H_TRUNC; f->n = 1 + (int) vf_below(r, 3); f->blen = 0; break;
-	case M_HDR_NOTERM: f->hk = H_NOTERM; f->n = 1 + (int) vf_below(r, 20); f->body7 = true; break;
-	case M_HDR_HOPS: f->hk = H_HOPS; f->n = (int) vf_below(r, 21); break;
+	case M_HDR_NOTERM: {
+		// boundary biased: around the ttl, around the header capacity (16 words)
+		int c[] = { 1, v->ttl - 1, v->ttl, v->ttl + 1, 15, 16, 17, 20, 1 + (int) vf_below(r, 20) };
+		f->hk = H_NOTERM; f->n = c[vf_below(r, 9)]; if (f->n < 1) f->n = 1; f->body7 = true;
+		break;
+	}
+	case M_HDR_HOPS: {
+		// n non-terminal words + the terminal one: n+1 == ttl is the last accepted
+		int c[] = { 0, 1, v->ttl - 2, v->ttl - 1, v->ttl, v->ttl + 1, 14, 15, 16, 20, (int) vf_below(r, 21) };
+		f->hk = H_HOPS; f->n = c[vf_below(r, 11)]; if (f->n < 0) f->n = 0;
+		break;
+	}
 	case M_HDR_ALLHI: f->hk = H_ALLHI; f->n = 1 + (int) vf_below(r, 5); break;
 	case M_HDR_FFFFFFFF: f->hk = H_WORD; f->w = 0xffffffffu; break;
 	case M_HDR_80000000: f->hk = H_WORD; f->w = 0x80000000u; break;
@@ -2200,7 +2261,10 @@ run_udp_session(victim *v, plan *pl, vf_rng *r, bool do_new, bool do_spin)
 		check_bystanders(v, do_new, true);
 		vf_stat("held_checks", 1);
 	}
-	bool vanish = (um == UM_NODISC || pl->endact == END_RST) && !vp->single;
+	// leaving without DISC keeps a dead pipe on the victim for the keep-alive
+	// time; sockets that distribute their own sends over all pipes would
+	// starve the bystanders, so only receiving protocols get such peers
+	bool vanish = (um == UM_NODISC || pl->endact == END_RST) && !vp->single && (vp->ck == CK_C2V_1W || vp->ck == CK_C2V_RR) && v->lingering < 6;
 	if (!vanish) {
 		uint8_t h[8];
 		udp_hdr(h, 1, 3, vp->peer, 0, 0);
@@ -2236,6 +2300,24 @@ static const int udp_generic[] = { M_VALID, M_LEN_0, M_LEN_1, M_LEN_MAXM1, M_LEN
 	M_HDR_HOP0, M_HDR_HOPTTL, M_HDR_HOPTTLP1, M_HDR_HOP255, M_HDR_HOP256, M_HDR_HOPBIG, M_HDR_ID_WRONG, M_HDR_ID_LOW, M_HDR_ID_DUP,
 	M_FLOOD_EMPTY, M_FLOOD_SMALL, M_BIG_VALID };
 #define NEL(a) ((int) (sizeof(a) / sizeof((a)[0])))
+
+// protocol header mutation suited to the victim's header model (the others
+// still get a share: every model must reject what is not its header)
+static int
+hdr_mut_for(const victim *v, vf_rng *r)
+{
+	static const int bt[]  = { M_HDR_HOPS, M_HDR_HOPS, M_HDR_HOPS, M_HDR_NOTERM, M_HDR_NOTERM, M_HDR_MISSING, M_HDR_TRUNC, M_HDR_ALLHI, M_HDR_FFFFFFFF, M_HDR_80000000, M_HDR_7FFFFFFF };
+	static const int hop[] = { M_HDR_HOP0, M_HDR_HOPTTL, M_HDR_HOPTTLP1, M_HDR_HOP255, M_HDR_HOP256, M_HDR_HOPBIG, M_HDR_MISSING, M_HDR_TRUNC, M_HDR_FFFFFFFF, M_HDR_80000000 };
+	static const int id4[] = { M_HDR_ID_WRONG, M_HDR_ID_LOW, M_HDR_ID_DUP, M_HDR_MISSING, M_HDR_TRUNC, M_HDR_FFFFFFFF, M_HDR_7FFFFFFF };
+	if (vf_chance(r, 1, 5)) return M_HDR_MISSING + (int) vf_below(r, M_HDR_ID_DUP - M_HDR_MISSING + 1);
+	switch (v->vp->hm) {
+	case HM_BT:
+	case HM_BT_NOTTL: return bt[vf_below(r, NEL(bt))];
+	case HM_HOP: return hop[vf_below(r, NEL(hop))];
+	case HM_ID4: return id4[vf_below(r, NEL(id4))];
+	default: return M_HDR_MISSING + (int) vf_below(r, M_HDR_ID_DUP - M_HDR_MISSING + 1);
+	}
+}
 
 static void
 pick_plan(victim *v, plan *pl, vf_rng *r)
@@ -2292,7 +2374,15 @@ pick_plan(victim *v, plan *pl, vf_rng *r)
 			}
 			if (plan_mutate(v, pl, r, udp_generic[vf_below(r, NEL(udp_generic))])) return;
 		} else {
-			if (plan_mutate(v, pl, r, (int) vf_below(r, M_STREAM_N))) return;
+			// categories: handshake 22 %, length 26 %, protocol header 34 %, rest
+			uint32_t x = vf_below(r, 100);
+			int      m;
+			if (x < 22) m = M_HS_MAGIC0 + (int) vf_below(r, M_HS_TWICE - M_HS_MAGIC0 + 1);
+			else if (x < 48) m = M_LEN_0 + (int) vf_below(r, M_LEN_LESS - M_LEN_0 + 1);
+			else if (x < 82) m = hdr_mut_for(v, r);
+			else if (x < 86 && v->tran == T_IPC) m = M_IPC_TYPE0 + (int) vf_below(r, 3);
+			else m = (int[]){ M_VALID, M_GARBAGE, M_FLOOD_EMPTY, M_FLOOD_SMALL, M_BIG_VALID, M_TRUNC_RANDOM, M_TRUNC_RANDOM }[vf_below(r, 7)];
+			if (plan_mutate(v, pl, r, m)) return;
 		}
 	}
 }
@@ -2377,6 +2467,7 @@ open_with_control(victim *v, const vproto *vp, int tran, size_t recvmax, int ttl
 	if (with_ctl) {
 		if (!ctl_connect(v, 0)) vf_harness_fail("control client cannot connect to a fresh %s/%s victim", tnames[tran], vp->name);
 		if (!exchange(v, 0)) vf_harness_fail("control exchange fails on a fresh %s/%s victim", tnames[tran], vp->name);
+		v->ctl[0].rem_base = atomic_load(&v->ctl[0].rem);
 	}
 }
 
@@ -2384,7 +2475,7 @@ static int
 pick_tran(vf_rng *r)
 {
 	uint32_t x = vf_below(r, 100);
-	return x < 34 ? T_SOCKFD : x < 50 ? T_TCP : x < 66 ? T_IPC : x < 83 ? T_WS : T_UDP;
+	return x < 40 ? T_SOCKFD : x < 57 ? T_TCP : x < 74 ? T_IPC : x < 88 ? T_WS : T_UDP;
 }
 
 int
@@ -2416,7 +2507,17 @@ main(int argc, char **argv)
 			for (int p = 0; p < NVPROTO; p++) {
 				for (int e = 0; e < 2; e++, idx++) {
 					if (only_tran >= 0 && t != only_tran) continue;
-					if ((idx % vf_nshards) != vf_shard || !vf_want_case(idx)) continue;
+					// the two end actions of one (transport, protocol) go to the same worker
+					if (((idx >> 1) % vf_nshards) != vf_shard) continue;
+					if (vf_tier == 0) {
+						// quick: one end action per (transport, protocol), the
+						// datagram / websocket sweeps for a third of the protocols;
+						// which ones depends on the (worker's) seed
+						uint64_t h = vf_mix64(vf_seed ^ (uint64_t) (t * 64 + p));
+						if (vf_only < 0 && (int) (h & 1) != e) continue;
+						if (vf_only < 0 && (t == T_UDP || t == T_WS) && ((h >> 1) % 3) != 0) continue;
+					}
+					if (!vf_want_case(idx)) continue;
 					const vproto *vp = &vprotos[p];
 					vf_rng_seed(&r, vf_seed, (uint64_t) idx);
 					size_t rm  = recvmaxes[vf_below(&r, 3)];
